@@ -12,3 +12,9 @@ Definition rcase := (Z * bool * option Z * Z * (bool * Z))%type.
 Definition rcheck (c : rcase) : bool :=
   let '(size, co, bavail, res, (ok, after)) := c in
   let '(ok', after') := reserve size co bavail res in Bool.eqb ok ok' && Z.eqb after after'.
+
+(* the gate on quantities: (avail, min, total, max, size, bavail, reserved before, (queued?, reserved afterwards)) in bytes *)
+Definition gcase := (option Z * Z * Z * option Z * Z * option Z * Z * (bool * Z))%type.
+Definition gcheck (c : gcase) : bool :=
+  let '(av, mn, tot, mx, size, bav, res, (q, r)) := c in
+  let '(q', r') := pull_gate_n av mn tot mx size bav res in Bool.eqb q q' && Z.eqb r r'.
